@@ -81,7 +81,10 @@ func (hs *clientHandshakeStateTLS13) decompressCert(m utlsCompressedCertificateM
 		decompressed = rc
 
 	case CertCompressionZstd:
-		rc, err := zstd.NewReader(compressed)
+		// The decoder sizes its history buffer from the frame header before it
+		// produces a byte: bound it (RFC 8878 recommends supporting 8 MiB), or a
+		// ten-byte message can ask for half a gigabyte.
+		rc, err := zstd.NewReader(compressed, zstd.WithDecoderMaxWindow(8<<20), zstd.WithDecoderLowmem(true), zstd.WithDecoderConcurrency(1))
 		if err != nil {
 			c.sendAlert(alertBadCertificate)
 			return nil, fmt.Errorf("failed to open zstd reader: %w", err)
